@@ -18,9 +18,12 @@ RULE = ('(1) primitives: every string over a 14-letter hostile alphabet up to le
         'conf.registerGlobalValue/registerNetworkValue/registerChannelValue, settings made in generation 0, then k times: load the previous file into registry._cache, '
         'register again, optionally read some values, save -- the saved lines and the values read are compared with the model (loader cache + registration scan) and '
         'between generations (a session that sets nothing must save what it loaded); one history runs on the real supybot.conf tree with one process per session. '
+        '(7) NormalizedString: long values (words with #, hyphens, long URLs, escapes; a #token at every position of a 24-word sentence for three name lengths) '
+        'saved by the real close(), the wrapped physical lines / reader result / reloaded value compared with the model and the reload checked directly. '
         'Each case runs on the implementation and on the extracted model and is diffed; the property clauses (reload equality, file loads, rejected set '
         'leaves the value, specific-value resolution) are evaluated directly on the implementation.  non-trivial = distinct input other than the empty text')
-TRUSTED = ['float()/repr(float), json, textwrap.wrap, perlReToPythonRe: classes built on them (Float family, Json, NormalizedString, Regexp, Servers, Databases, Banmask, HttpProxy, SocketTimeout) are checked on the implementation only, not modelled',
+TRUSTED = ['textwrap.wrap is not modelled: for NormalizedString the chunks the real call returned are recorded and handed to the model (normalize, set, the wrapped value lines and the reader are modelled)',
+           'float()/repr(float), json, perlReToPythonRe: classes built on them (Float family, Json, Regexp, Servers, Databases, Banmask, HttpProxy, SocketTimeout) are checked on the implementation only, not modelled',
            'class-specific validators in setValue (ircutils.isNick/isChannel/isUserHostmask, utils.net.isIP, template test, prefix-char test) enter the model as an explicit verdict bit computed on the real class',
            'str.isspace / str.isprintable tables and string.printable are regenerated from the running CPython',
            'utils.safeEval is modelled for one string literal (escape decoding included); texts with more tokens after the literal, \\N{..} escapes and non-ASCII digits are outside the model (reported by the model as such, not compared)',
@@ -33,7 +36,7 @@ ASSUMPTIONS = ['world.testing/log.testing off; locale encoding UTF-8; integers w
                'private registry.Group trees and a scratch file; registry._cache/_lastModified are restored after every load']
 LEVEL_TEXT = ('Coq theorems over an executable Gallina model of src/registry.py (names, unicode_escape codec, repr/string-literal evaluation, value classes, '
               'value lines of close(), the reader open_registry(), the Value tree with _makeChild/_setValue/getSpecific, the loader cache with the register*Value scans of src/conf.py): name split/join round trip and '
-              'save/reload round trips proved for all inputs on decidable domains with refuting witnesses outside them (finding C15.F23 remains; C15.F16, F22, F24, F25, F26, F27 are repaired); the model is tied to '
+              'save/reload round trips proved for all inputs on decidable domains with refuting witnesses outside them (finding C15.F23 remains; C15.F16, F22, F24, F25, F26, F27, F28 are repaired); the model is tied to '
               'the source by a regenerated class inventory + constant tables and by a differential run against the real registry/conf classes on every check.')
 LEVEL_NOTE = ('Trusted: Coq kernel, table extractor, extraction + OCaml driver, the Python harness; CPython primitives listed in trusted_base; '
               'Python code is modelled not verified.')
@@ -253,6 +256,11 @@ CORPUS_FIXED = [
      'gens': [[['set', 0, ['n', 'neta'], 'False'], ['read', 0, ['n', 'neta']]], [], [['read', 0, ['n', 'neta']]]], 'final_reads': 1},
     {'op': 'gens', 'vars': [{'ns': ['networks', 'neta', 'saslUser'], 'flavor': 'network', 'cls': 'registry.String'}],    # C15.F27
      'gens': [[['set', 0, ['n', 'netb'], 'x y'], ['read', 0, ['n', 'netb']]], [], [], [['read', 0, ['n', 'netb']]]], 'final_reads': 1},
+    {'op': 'norm', 'var': 'someLongName',                                                                             # C15.F28: a blank inside the URL
+     'text': 'go to https://example.org/a/very/long/path/that/does/not/fit/on/one/line/of/the/file/at/all/really ok'},
+    {'op': 'norm', 'var': 'someLongName', 'text': 'www wwww wwwww ww wwwwww www www wwww wwwww well-known tail words here'},  # C15.F28: well- known
+    {'op': 'norm', 'var': 'aVeryLongVariableNameThatLeavesLittleRoomForTheValue01234567', 'text': 'caf\xe9'},            # C15.F28: cut inside \xe9, file unloadable
+    {'op': 'norm', 'var': 'aVeryLongVariableNameThatLeavesLittleRoomForTheValue01234567', 'text': 'ab\\cd'},            # C15.F28: cut inside a doubled backslash
     {'op': 'reload', 'cls': 'registry.Json', 'var': 'v', 'value': [0, '"a"'], 'text': '"a"', 'cur': None},              # C15.F16: Json is not quoted
 ]
 
@@ -921,6 +929,134 @@ def check_real_gens(ctx, inp):
 
 
 
+# ---------------------------------------------------------------- (7) NormalizedString: wrapped value lines
+NWORDS = ['see', 'the', 'well-known', 'docs', '#chan', '#12', 'a-b-c', 'at', 'https://example.org/a/very/long/path/that/does/not/fit/on/one/line/of/the/file',
+          'caf\xe9', 'x\\', '"q"', 'a:', ':', 'it\'s', 'and', 'then', 'more', 'words', '#', '##x', 'end-', '-', 'e€€€€€€€€', 'ok', '\\',
+          'supercalifragilisticexpialidocious-antidisestablishmentarianism', '#fifth', 'mother-in-law', '\U0001f600\U0001f600\U0001f600']
+NVARS = ['v', 'someLongName', 'replies.x', 'a#b', 'aVeryLongVariableNameThatLeavesLittleRoomForTheValue01234567', 'x' * 70]
+
+
+def norm_chunks(inst):
+    """the chunks textwrap.wrap hands back to NormalizedString.serialize (recorded from the real call)"""
+    import textwrap as _tw
+    m = mods()
+    rec = []
+    real = m.registry.textwrap.wrap
+
+    def spy(*a, **k):
+        r_ = real(*a, **k)
+        rec.append(list(r_))
+        return r_
+    m.registry.textwrap.wrap = spy
+    try:
+        inst.serialize()
+    finally:
+        m.registry.textwrap.wrap = real
+    return rec[-1] if rec else None
+
+
+def norm_case(var, text):
+    """real run: set, chunks, save, load, reload.  returns dict or None when the text is rejected"""
+    m = mods()
+    r = m.registry
+    out = {}
+    with keep_cache():
+        root = r.Group()
+        root.setName('verifc15')
+        inst = r.NormalizedString('', '')
+        root.register(var, inst)
+        try:
+            inst.set(text)
+            out['set'] = ('ok', inst.value)
+        except r.InvalidRegistryValue:
+            out['set'] = ('raise', 'InvalidRegistryValue')
+            return out
+        out['name'] = inst._name
+        out['s0'] = r.Value.serialize(inst)
+        out['chunks'] = norm_chunks(inst)
+        r.close(root, m.fn)
+        with open(m.fn, newline='') as f:
+            raw = f.read()
+        out['text'] = ''.join(l + '\n' for l in raw.split('\n') if l.strip() and not l.startswith('#'))
+        try:
+            r.open_registry(m.fn, clear=True)
+            out['load'] = ('ok', [[k, v] for (k, v) in r._cache.data.values()])
+        except Exception as e:
+            out['load'] = ('raise', exn_name(e))
+            return out
+        root2 = r.Group()
+        root2.setName('verifc15')
+        inst2 = r.NormalizedString('', '')
+        try:
+            root2.register(var, inst2)
+            out['reloaded'] = ('ok', inst2.value)
+        except Exception as e:
+            out['reloaded'] = ('raise', exn_name(e))
+    return out
+
+
+def check_norm(ctx, var, text, mo):
+    inp = {'op': 'norm', 'var': var, 'text': text}
+    ctx.case('normalized-wrapped', inp, nontrivial=bool(text))
+    try:
+        res = norm_case(var, text)
+    except ValueError as e:          # textwrap: invalid width (name longer than the line)
+        ctx.fail(inp, 'saving raised %r' % (e,))
+        return
+    if mo is not None and res['set'][0] == 'ok':
+        mtext, mload = wire.s(mo[0]), wire.r(mo[1], lambda l: [[wire.s(kv[0]), wire.s(kv[1])] for kv in l])
+        mrel, mset, ms0 = wire.r(mo[2], wire.s), wire.r(mo[3], wire.s), wire.s(mo[4])
+        other = ('raise', 'OtherError')
+        if mset != other and mset != res['set']:
+            ctx.disagree(inp, mset, res['set'], 'NormalizedString.set')
+        elif ms0 != res['s0']:
+            ctx.disagree(inp, ms0, res['s0'], 'text handed to textwrap.wrap')
+        elif mtext != res['text']:
+            ctx.disagree(inp, mtext, res['text'], 'wrapped value lines written by close()')
+        elif mload != other and mload != res['load']:
+            ctx.disagree(inp, mload, res['load'], 'open_registry of the wrapped lines')
+        elif res['load'][0] == 'ok' and mrel != other and mrel != res.get('reloaded'):
+            ctx.disagree(inp, mrel, res.get('reloaded'), 'NormalizedString value after reload')
+    elif mo is not None and res['set'][0] == 'raise':
+        mset = wire.r(mo[3], wire.s)
+        if mset[0] == 'ok':
+            ctx.disagree(inp, mset, res['set'], 'NormalizedString.set')
+    if res['set'][0] != 'ok':
+        return
+    # direct oracle: the file loads, and loads the value that was saved
+    if res['load'][0] == 'raise':
+        ctx.fail(inp, 'the saved file does not load: %s; lines %r' % (res['load'][1], res['text']))
+    elif res['reloaded'][0] == 'raise':
+        ctx.fail(inp, 'the saved value is rejected on reload (%s); lines %r' % (res['reloaded'][1], res['text']))
+    elif res['reloaded'][1] != res['set'][1]:
+        ctx.fail(inp, 'saved %r, reloaded %r; lines %r' % (res['set'][1], res['reloaded'][1], res['text']))
+    elif len(res['load'][1]) != 1:
+        ctx.fail(inp, 'the file of one variable loads as %d entries: %r' % (len(res['load'][1]), res['load'][1]))
+
+
+def norm_wire(var, text):
+    """model case: needs the implementation's value and the recorded chunks"""
+    try:
+        res = norm_case(var, text)
+    except ValueError:
+        return None
+    if res['set'][0] != 'ok' or res.get('chunks') is None:
+        return [8, [mods().registry.join(['verifc15', var]), [], '', text, '']]
+    return [8, [res['name'], res['chunks'], '', text, res['set'][1]]]
+
+
+def gnorm(rng):
+    n = rng.randint(3, 28)
+    words = [rng.choice(NWORDS[:8] + NWORDS[15:19]) if rng.random() < 0.6 else rng.choice(NWORDS) for _ in range(n)]
+    return rng.choice(NVARS[:5]), ' '.join(words)
+
+
+CORPUS_NORM = [('someLongName', 'please join #channel and then #other and then #third and then #fourth and #fifth ok'),
+               ('v', ''), ('v', 'short'), ('someLongName', '"quoted value that is long enough to be wrapped over more than one line of the file ok"'),
+               ('someLongName', 'see the well-known documentation at the usual place for all the details you need-now and then more words')]
+
+
+
 # ---------------------------------------------------------------- generators
 def gstr(rng, maxlen=8, alpha=None):
     alpha = alpha or (ALPHA + EXTRA)
@@ -1019,7 +1155,7 @@ CORPUS_TREE = [
     {'op': 'tree', 'cls': 'registry.String', 'init': [0, 'x'], 'ops': [['set', ['n', 'neta'], 'y'], ['get', ['nc', 'neta', '#a']], ['setvalue', ['g'], [0, 'z']],
                                                                         ['get', ['nc', 'neta', '#a']], ['get', ['nc', 'netb', '#a']], ['reset', ['n', 'neta']], ['get', ['nc', 'neta', '#a']]]},
 ]
-CORPUS_FILES = ['', 'a: b\n', 'a: b', 'a:b\n', '# c\n\na: b\n', 'a: b\\\nc\n', 'a: b\\\\\nc: d\n', 'a\\: b: c\n', 'A: 1\na: 2\n', ' a : b \n', 'a: \n', 'a:  x \n', 'x\n',
+CORPUS_FILES = ['a: b\\\n  #c\\\n  d\ne: f\n', ' #x\na: b\n', 'a: b\\\n\t# c\nd: e\n', '', 'a: b\n', 'a: b', 'a:b\n', '# c\n\na: b\n', 'a: b\\\nc\n', 'a: b\\\\\nc: d\n', 'a\\: b: c\n', 'A: 1\na: 2\n', ' a : b \n', 'a: \n', 'a:  x \n', 'x\n',
                 'a: \\x4\n', 'a: \\\n', 'a: b\r\nc: d\r', 'a: \\u00e9\xe9\n', 'a: b\n\\\n', ': v\n', 'a: b: c\n', '\xa0\na: 1\n', 'a: 1\n \n#\nb: 2\n', 'a: \\N{DASH}\n',
                 'a\\\\: b\n', 'k: v\\', 'a: b\n\x0c\nc: d\n', 'a:\xa0b\n', 'a: "\\""\n', 'a: 1\\\n\\\n2\n']
 
@@ -1044,6 +1180,11 @@ def _run(ctx):
             do_reload(ctx, inp)
         elif inp['op'] == 'names':
             check_names(ctx, inp['names'], None)
+        elif inp['op'] == 'norm':
+            sub = type(ctx)(ctx.pid, ctx.tier, ctx.seed, {'model_ok': False})
+            check_norm(sub, inp['var'], inp['text'], None)
+            for f in sub.failures:
+                ctx.fail(inp, f['detail'])
         elif inp['op'] == 'gens':
             fails = run_gens(ctx, inp, None)
             if fails:
@@ -1161,8 +1302,10 @@ def _run(ctx):
             t = rng.random()
             if t < 0.5:
                 parts.append(rng.choice(['a', 'B', 'a.b', 'a\\:', 'x y', '#c', '']) + rng.choice([': ', ': ', ':', ' : ', ':  ']) + gstr(rng, 5, ['\\', 'x', '4', 'n', ' ', ':', '"', '\xe9', 'u', '0', '#']))
-            elif t < 0.65:
+            elif t < 0.6:
                 parts.append('#' + gstr(rng, 4))
+            elif t < 0.65:
+                parts.append(rng.choice([' ', '  ', '\t', '\xa0']) + '#' + gstr(rng, 4, ['a', ':', ' ', '\\']))
             elif t < 0.8:
                 parts.append(gstr(rng, 4, [' ', '\t', '\xa0', '\\', 'a', ':']))
             else:
@@ -1187,6 +1330,19 @@ def _run(ctx):
     for g, mo in zip(gl, outs):
         check_gens(ctx, g, mo)
     check_real_gens(ctx, {'op': 'real_gens', 'cases': REAL_CASES, 'sessions': 3})
+    # (7) NormalizedString: long values wrapped over several physical lines, '#word' at every position
+    nl = list(CORPUS_NORM)
+    base = 'alpha beta gamma delta epsilon zeta eta theta iota kappa lambda mu nu xi omicron pi rho sigma tau upsilon phi chi psi omega'.split()
+    for var in ('v', 'someLongName', 'replies.x'):
+        for i in range(len(base) + 1):
+            nl.append((var, ' '.join(base[:i] + ['#tok%d' % i] + base[i:])))
+    for _ in range(ctx.n(150)):
+        nl.append(gnorm(rng))
+    wires = [norm_wire(v, t) for v, t in nl]
+    outs = ctx.model([w for w in wires if w is not None])
+    it = iter(outs)
+    for (v, t), w in zip(nl, wires):
+        check_norm(ctx, v, t, next(it) if w is not None else None)
 
 
 def replay(ctx, inp):
@@ -1204,6 +1360,8 @@ def replay(ctx, inp):
         do_reload(sub, inp)
     elif op == 'tree':
         check_tree(sub, inp, None)
+    elif op == 'norm':
+        check_norm(sub, inp['var'], inp['text'], None)
     elif op == 'gens':
         check_gens(sub, inp, None)
     elif op == 'real_gens':
@@ -1212,6 +1370,9 @@ def replay(ctx, inp):
 
 
 def shrink(ctx, inp):
+    if inp.get('op') == 'norm':
+        words = shrink_seq(inp['text'].split(' '), lambda w: replay(ctx, dict(inp, text=' '.join(w))) is not None, budget=80)
+        return dict(inp, text=' '.join(words))
     if inp.get('op') == 'gens':
         cur = inp
         g0 = shrink_seq(cur['gens'][0], lambda o: replay(ctx, dict(cur, gens=[o] + cur['gens'][1:], final_reads=0)) is not None, budget=60)
